@@ -198,6 +198,29 @@ def builtin_module(which):
     raise ValueError(which)
 
 
+_META_CODE = [None]
+
+
+def fresh_builtin(which):
+    """A pristine instance of a repository module for reference executions: the source file is
+    compiled once and exec'ed into a new module object each time."""
+    if which != 'meta':
+        raise ValueError(which)
+    import sourcer.parser as P
+    if _META_CODE[0] is None:
+        with open(P.__file__) as f:
+            src = f.read()
+        code = compile(src, P.__file__, 'exec')
+        seen, cs = set(), []
+        mon._walk(code, seen, cs)
+        mon.watch(cs)
+        _META_CODE[0] = code
+    m = types.ModuleType('sourcer.parser')
+    m.__file__ = P.__file__
+    exec(_META_CODE[0], m.__dict__)
+    return m
+
+
 def generated_codes(m):
     """Code objects compiled from generated source (file name '<...>'): not the re module's compile
     that a grammar module imports, not the harness callbacks it is armed with."""
@@ -639,7 +662,9 @@ def reference_outcome(chain, op, definitive=False, on_hook=None, exec_now=False)
     env.on_hook = on_hook
     with isolated_registry():
         try:
-            if exec_now:
+            if len(chain) == 1 and chain[0].startswith('<builtin '):
+                mods = [fresh_builtin(chain[0][len('<builtin '):-1])]
+            elif exec_now:
                 mods = build_chain_fast(chain, fresh=True)
             else:
                 mods = build_chain_real(chain) if definitive else build_chain_fast(chain)
